@@ -39,7 +39,8 @@ def run(prog, chk, tier):
                        "its 16x24 transfer matrix must equal the bit-serial CRC-16 step with reflected polynomial 0x8408; closure to 16 bits, "
                        "initialisation from start_value (default 0xFFFF), iteration over the data in order and absence of a final XOR are "
                        "checked on the loop record. By induction this is the whole property for every byte string and every 16-bit start value.")
-    ex = Exec(prog, policy=lambda e, f, d: False)
+    # module-level helpers the function calls (an extracted per-byte step, say) are interpreted as part of it
+    ex = Exec(prog, policy=lambda e, f, d: f.module is fi.module and f.cls is None and f is not fi and d < 3)
     res = ex.run(fi)
     where = "%s:%d" % (fi.file, fi.lineno)
     rets = [e for e in res.events if e.kind == "return" and e.stack == (fi.qualname,)]
@@ -48,7 +49,8 @@ def run(prog, chk, tier):
     # the result may depend on (data, start_value) only: no module-level state is read or written
     import ast as _ast
 
-    globs = [n for n in _ast.walk(fi.node) if isinstance(n, (_ast.Global, _ast.Nonlocal))]
+    helpers = {id(e.d["callee"]): e.d["callee"] for e in res.events if e.kind == "call" and e.d.get("callee") is not None and getattr(e.d["callee"], "module", None) is fi.module}
+    globs = [n for f_ in [fi] + list(helpers.values()) for n in _ast.walk(f_.node) if isinstance(n, (_ast.Global, _ast.Nonlocal))]
     chk.require(not globs, "C15.R3.no-state-between-calls", FN, "no global / nonlocal statement", where, "the checksum is a function of its arguments only; nothing is remembered between calls",
                 "the function keeps state between calls (%s): the result can depend on earlier calls" % ", ".join(_ast.unparse(g) for g in globs))
     if len(rets) != 1:
